@@ -38,6 +38,7 @@ func languageSweep(r *ev.Run, G *gprops, gs *gstats, vers []int, thorough bool) 
 	r.Phase("decorations", func() { decorations(r, G, gs, vers) })
 	r.Phase("escaped vectors", func() { escapedVectors(r, G, gs, vers) })
 	r.Phase("source literals as tokens", func() { sourceLiteralTokens(r, G, gs, vers) })
+	r.Phase("hash aliases", func() { hashAliasInputs(r, G, gs, vers) })
 	if G.accept || G.decOn || G.total {
 		r.Phase("decoder re-use", func() { reusePhase(r, vers) })
 	}
@@ -255,6 +256,7 @@ func init() {
 		r.Phase("decorations", func() { decorations(r, G, gs, []int{3, 2}) })
 		r.Phase("escaped vectors", func() { escapedVectors(r, G, gs, []int{3, 2}) })
 		r.Phase("source literals as tokens", func() { sourceLiteralTokens(r, G, gs, []int{3, 2}) })
+		r.Phase("hash aliases", func() { hashAliasInputs(r, G, gs, []int{3, 2}) })
 		r.Phase("case variants", func() { caseVariants(r, G, gs, []int{3, 2}) })
 		r.Phase("value lattices", func() { valueLattices(r, G, gs, []int{3, 2}, thorough) })
 		r.Phase("enum", func() {
@@ -298,6 +300,7 @@ func init() {
 		r.Phase("decorations", func() { decorations(r, G, gs, []int{3, 2}) })
 		r.Phase("escaped vectors", func() { escapedVectors(r, G, gs, []int{3, 2}) })
 		r.Phase("source literals as tokens", func() { sourceLiteralTokens(r, G, gs, []int{3, 2}) })
+		r.Phase("hash aliases", func() { hashAliasInputs(r, G, gs, []int{3, 2}) })
 		r.Phase("case variants", func() { caseVariants(r, G, gs, []int{3, 2}) })
 		r.Phase("value lattices", func() { valueLattices(r, G, gs, []int{3, 2}, thorough) })
 		r.Phase("vectors of the other version", func() { crossVersion(r, G, gs, []int{3, 2}) })
